@@ -2,8 +2,10 @@ package mpb
 
 import (
 	"bytes"
+	"context"
 	"io"
 	"strings"
+	"time"
 
 	"github.com/vbauerster/mpb/v8/cwriter"
 	"github.com/vbauerster/mpb/v8/decor"
@@ -178,20 +180,45 @@ func vhC04Extender() {
 	vCover("C04.extender.reach")
 }
 
-// ---- C03/C04 (render delay): once the delay has ended, the final frame goes to the real output, whichever of
-// the ready channels (delay over, refresh request, container done) the container goroutine serves first.
-// Whole schedule symbolic (every goroutine of the container, the ticker included).
-func vhC03DelayThenShutdown() {
+// ---- C03/C04 (render delay), every schedule: the real Progress.serve in the state "the render delay has ended and
+// the container is done" (both channels ready), with the real heap manager and no refresh listener. Text accepted
+// earlier sits in the container's writer; the final render has to bring it (and the bars) to the real output,
+// whichever ready channel the container goroutine looks at first.
+func vhC03ServeDelayDone() {
+	rec := &vFrameRec{}
+	cw := cwriter.New(rec)
 	delay := make(chan struct{})
-	e := vNewContainer(vAuto, -1, WithRenderDelay(delay))
-	m := vNewMark(0)
-	b, err := e.p.Add(3, m, BarFillerTrim())
-	vAssert(err == nil, "C03.delay.add-ok")
-	close(delay)
-	e.p.Shutdown()
-	e.rec.closed = true
-	vAssert(b.Aborted() && !b.Completed(), "C03.delay.bar-aborted")
-	last := e.rec.n - 1
-	vAssert(e.rec.n >= 1 && e.rec.w[last] == 1 && e.rec.nl[last] == 1, "C03.delay.final-frame-written-after-the-delay-ended")
-	vCover("C03.delay.reach")
+	done := make(chan struct{})
+	ctx, cancel := context.WithCancel(context.Background())
+	p := &Progress{
+		operateState: make(chan func(*pState)),
+		interceptIO:  make(chan func(io.Writer)),
+		done:         done,
+		cancel:       cancel,
+	}
+	s := &pState{
+		ctx:         ctx,
+		hm:          newHeapManager(2),
+		iterDrop:    make(chan struct{}),
+		renderReq:   make(chan time.Time),
+		autoRefresh: true,
+		delayRC:     delay,
+		queueBars:   make(map[*Bar]*Bar),
+		debugOut:    io.Discard,
+	}
+	go s.hm.run()
+	_, _ = cw.Write([]byte(vMakeText(100, 1)))
+	if vBool("delayEnded") {
+		close(delay)
+	}
+	close(done)
+	p.pwg.Add(1)
+	go p.serve(s, cw)
+	p.pwg.Wait()
+	if vBool("delayEnded") {
+		vAssert(rec.n == 1 && rec.w[0] == 100 && rec.nl[0] == 1, "C03.serve.final-frame-reaches-the-output-once-the-delay-has-ended")
+	} else {
+		vAssert(rec.n == 0, "C04.serve.nothing-written-while-the-delay-is-pending")
+	}
+	vCover("C03.serve.reach")
 }
